@@ -350,8 +350,15 @@ fn validate_dedicated_member_attrs<T, U: Fn(&T) -> Option<&TypePath>>(attrs: &Ve
 }
 
 fn validate_parent_attrs(named_root_struct: bool, field: &Field, parent_attrs: &[ParentAttr], data_type_attrs_by_kind: &[(&TraitAttrCore, Kind, bool)], errors: &mut HashMap<String, Span>) {
+    // What counts for a counterpart is the #[parent(...)] instruction with fields its conversions select: the one dedicated to it
+    // before the default one
+    let selected = |p: &ParentAttr, ty: &TypePath| match &p.container_ty {
+        Some(tp) => tp == ty,
+        None => !parent_attrs.iter().any(|x| x.child_fields.is_some() && x.container_ty.as_ref() == Some(ty)),
+    };
+
     for p in parent_attrs {
-        for (attr, kind, _) in data_type_attrs_by_kind.iter().filter(|(x, kind, _)| !kind.is_from() && (p.container_ty.is_none() || &x.ty == p.container_ty.as_ref().unwrap())) {
+        for (attr, kind, _) in data_type_attrs_by_kind.iter().filter(|(x, kind, _)| !kind.is_from() && selected(p, &x.ty)) {
             if let Some(fields) = p.child_fields.as_ref() { fields.iter().for_each(|f| {
                 if (attr.type_hint == TypeHint::Struct || named_root_struct) && !f.named_fields() && f.get_for_kind(kind).map_or(true, |x| x.that_member.is_none()) {
                     let s = f.this_member.to_token_stream().to_string(); 
@@ -360,7 +367,7 @@ fn validate_parent_attrs(named_root_struct: bool, field: &Field, parent_attrs: &
             })}
         }
 
-        for _ in data_type_attrs_by_kind.iter().filter(|(x, kind, _)|kind.is_from() && (p.container_ty.is_none() || &x.ty == p.container_ty.as_ref().unwrap())) {
+        for _ in data_type_attrs_by_kind.iter().filter(|(x, kind, _)|kind.is_from() && selected(p, &x.ty)) {
             if p.child_fields.is_some() && field.ty.is_none() {
                 errors.insert(format!("Member '{}' has #[parent(...)] instruction with fields, its type should be a struct name", field.member.to_token_stream()), field.member.span());
             }
